@@ -337,8 +337,8 @@ def m2(ctx, rep):
         cdm = binding.get('color_discrete_map')
         keys = {const_value(k) for k in cdm[0].keys if k is not None} if cdm and isinstance(cdm[0], ast.Dict) else None
         if keys is not None:
-            rep.check('M2.label', fn, hc, set(labels.values()) <= keys,
-                      'every label has a colour', f'labels {sorted(labels.values())} vs colour keys {sorted(keys)}',
+            rep.check('M2.label', fn, hc, {l_ for l_ in labels.values() if l_ is not None} <= keys,
+                      'every label has a colour', f'labels {sorted(map(str, labels.values()))} vs colour keys {sorted(map(str, keys))}',
                       construct='colour map keys')
         # builder: px.scatter(data, x=columns[0], y=columns[1][, z=columns[2]], color=<label col>)
         hfr = Frame(helper)
